@@ -1,19 +1,23 @@
 T = "GeomV.C02."
 CFG = {
     "id": "C02",
-    "lean_modules": ["GeomV.C02.Proofs"],
+    "lean_modules": ["GeomV.C02.Proofs", "GeomV.C02.Ties"],
     "exe": "geomv_c02",
     "go_cmd": "c02",
     "stages": ["go:gen", "go:impl", "lean:judge"],
     "theorems": [T + n for n in ["C02_pointOnSegment_spec", "C02_rayIntersects_eq_crossHO", "C02_ring_onEdge_iff",
                                  "C02_closed_walk_even", "C02_bbox_prefilter_sound", "C02_point", "C02_point_no_panic",
-                                 "C02_receivers_points", "C02_receivers_multiline", "C02_receivers_polygon"]],
+                                 "C02_receivers_points", "C02_receivers_multiline", "C02_receivers_polygon",
+                                 "C02_tie_pointSubtract", "C02_tie_pointOnSegment", "C02_tie_rayIntersectsSegment"]],
     "lean_dirs": ["C02"],
     "trusted_base": [
         "Lean 4.33.0 kernel; axioms of every theorem printed by #print axioms must be within {propext, Classical.choice, Quot.sound}",
         "model lean/GeomV/C02/Model.lean (exact Rat arithmetic, four-valued float division FQ, extended-rational Bounds) is tied to "
         "/repo/{within,simplify,area,bounds,multipoint,linestring,multilinestring,polygon}.go by the correspondence run on every check: "
         "exact three-valued status, exhaustive on half-integer grids",
+        "T1: harness/cmd/c02/extract.go (go/ast, ~300 lines) regenerates lean/GeomV/C02/Gen.lean (pointSubtract, pointOnSegment, "
+        "rayIntersectsSegment) from the tree under test on every run; Ties.lean proves Gen.f = Model.f by rfl; the translation of float "
+        "division/comparison into FQ (fdiv, FQ.eq, FQ.ge) is part of the trusted base and is exercised by the correspondence run",
         "IEEE-754 rounding is modelled, not verified: on half-integer grids (|k/2|, |k| <= 2^11) every subtraction is exact and "
         "distinct quotients differ by far more than an ulp; this argument is checked by the exhaustive grid enumeration, not assumed",
         "harness/cmd/c02 + lean driver + lib/vcheck.py transport inputs faithfully",
@@ -46,3 +50,25 @@ def post(check, pairs, stats):
 
 
 CFG["post"] = post
+
+
+def pregen(check):
+    """T1: regenerate Gen.lean from the Go source of the tree under test (written only when it changed)"""
+    import os, subprocess
+    import vcheck
+    ok, gobin, out = vcheck.go_build("c02", check.rundir)
+    if not ok:
+        return  # reported as a broken tie by the harness build of the main flow
+    p = subprocess.run([gobin, "extract", "--repo", vcheck.REPO], stdout=subprocess.PIPE, stderr=subprocess.PIPE, text=True)
+    if p.returncode != 0:
+        check.broken.append("T1 tie: simplify.go/within.go left the translatable subset: " + p.stderr.strip()[-300:])
+        return
+    gen = os.path.join(vcheck.LEAN, "GeomV", "C02", "Gen.lean")
+    old = open(gen).read() if os.path.exists(gen) else ""
+    if old != p.stdout:
+        with open(gen + ".tmp", "w") as f:
+            f.write(p.stdout)
+        os.replace(gen + ".tmp", gen)
+
+
+CFG["pregen"] = pregen
